@@ -674,6 +674,11 @@ def vec_build(inp, W):
     elif dt == "int": dt = int
     elif dt == "object": dt = object
     elif dt == "bool": dt = bool
+    if inp.get("source") == "objarray":
+        # the same Python values held by an object ndarray (what np.where(..., None, x), pandas and Arrow hand over)
+        arr = W.np.full(len(seq), None, object)
+        for i, x in enumerate(seq): arr[i] = x
+        seq = arr
     v = di.Vector(seq, dt) if dt is not None else di.Vector(seq)
     res = {"v": v, "is_na": v.is_na(), "tolist": v.tolist()}
     back = di.Vector(v.tolist(), v.dtype)
@@ -799,6 +804,7 @@ def geo_read(inp, W):
     coll = inp["collection"]
     kw = {}
     if inp.get("columns") is not None: kw["columns"] = inp["columns"]
+    if inp.get("dtypes"): kw["dtypes"] = {k: {"float": float, "str": str, "int": int}[t] for k, t in inp["dtypes"]}
     if W.sym:
         from . import stubs
         mod = _geo_module(W)
@@ -1233,7 +1239,7 @@ def str_proxy(inp, W):
 @op
 def geo_restrict(inp, W):
     full = geo_read({"collection": inp["collection"]}, W)["out"]
-    part = geo_read({"collection": inp["collection"], "columns": inp["cols"]}, W)["out"]
+    part = geo_read({"collection": inp["collection"], "columns": inp["cols"], "dtypes": inp.get("dtypes")}, W)["out"]
     return {"full": full, "part": part}
 
 @op
